@@ -292,6 +292,35 @@ func checkProjected(c projCase) ev.Outcome {
 			return o
 		}
 	}
+	// One tessellator serving two chains in alternation: the same polyline is
+	// tessellated into a second slice that starts one wrap further on. The output
+	// for an edge is a function of the edge and of the last vertex of the slice
+	// it is appended to, so the first chain must come out exactly as it does
+	// alone. (The second chain is only a decoy: it is the first one shifted by a
+	// wrap except where a 180-degree longitude jump ties in WrapDestination.)
+	{
+		t2 := s2.NewEdgeTessellator(ps.lib(), s1.Angle(c.Tol))
+		var x []r2.Point
+		y := []r2.Point{{X: chain[0].X + 2*ps.Scale, Y: chain[0].Y}}
+		{
+			for i := 0; i+1 < len(vs); i++ {
+				x = t2.AppendProjected(vs[i], vs[i+1], x)
+				y = t2.AppendProjected(vs[i], vs[i+1], y)
+			}
+			if len(x) != len(chain) {
+				o.Err = fmt.Sprintf("a tessellator shared by two chains gives %d vertices for the first chain, alone %d", len(x), len(chain))
+				o.Finding = "tess-shared-tessellator"
+				return o
+			}
+			for i := range chain {
+				if x[i] != chain[i] {
+					o.Err = fmt.Sprintf("a tessellator shared by two chains: vertex %d of the first chain is %v, alone %v", i, x[i], chain[i])
+					o.Finding = "tess-shared-tessellator"
+					return o
+				}
+			}
+		}
+	}
 	o.Counts = map[string]int{"output_vertices": len(chain)}
 	nEdges := len(chain) - 1
 	k := 3000 / nEdges
